@@ -58,6 +58,15 @@ func genOps(r *Rand, m *rd.Msg, nops int) (string, string) {
 			doPtr("root")
 			continue
 		}
+		if r.Intn(25) == 0 {
+			// the application-controlled budget API: handles stay valid, the budget is set / raised
+			if r.Intn(2) == 0 {
+				do(fmt.Sprintf("setlimit:%d", []uint64{0, 8, 64, 1000, 1 << 20, 1 << 40}[r.Intn(6)]))
+			} else {
+				do(fmt.Sprintf("unread:%d", []uint64{0, 8, 24, 4096, 1<<32 - 8}[r.Intn(5)]))
+			}
+			continue
+		}
 		h := r.Intn(len(infos))
 		if r.Intn(3) != 0 { // prefer recent handles: go deep
 			h = len(infos) - 1 - r.Intn(min(len(infos), 3))
